@@ -925,89 +925,133 @@ func c09R4(c *Ctx) {
 	if h == nil {
 		return
 	}
-	gc := h.gc
-	gn := FnName(gc)
+	gn := FnName(h.gc) // keys are anchored at the exported operation
 	if h.gcIndex == nil {
-		c.LostAnchor(R4, gn+": callee that rebuilds and replaces s.tagResolver (gcIndex)")
+		c.LostAnchor(R4, gn+": function that rebuilds and replaces s.tagResolver (gcIndex)")
 		return
 	}
-	recv := ssa.Value(gc.Params[0])
-	gcCalls := CallsTo(gc, fnFullName(h.gcIndex))
-	var gcOK []Edge
-	for _, g := range gcCalls {
-		if e := ErrOf(g); e != nil {
-			ne, _, _ := NilTests(gc, Aliases(e))
-			gcOK = append(gcOK, ne...)
-		}
-	}
-	var removes []ssa.CallInstruction
-	for _, call := range Calls(gc, func(n string) bool { return n == "os.Remove" || n == "os.RemoveAll" || n == "(*os.Root).Remove" }) {
-		removes = append(removes, call)
-	}
-	if len(removes) == 0 {
+	if len(h.sweepHosts) == 0 {
 		c.LostAnchor(R4, gn+": removal of unreachable blobs (os.Remove)")
 		return
 	}
-	graphLoads := c09FieldLoads(gc, recv, "graph")
-	for i, rm := range removes {
-		sfx := ""
-		if i > 0 {
-			sfx = fmt.Sprintf("#%d", i+1)
+	// reachSet: v is (through parameters of unexported helpers) the result of s.graph.DigestSet()
+	reachSet := func(v ssa.Value) ([]*ssa.Call, bool) {
+		os, ok := c09Origins(c.P, v, 3, nil)
+		if !ok || len(os) == 0 {
+			return nil, false
 		}
-		at := rm.(ssa.Instruction)
-		// the digest tested: Contains(S, d) on whose false edge the removal sits
-		var okKey = gn + "|remove-only-unreachable" + sfx
-		_, notIn, cs := CallTests(gc, "(~/internal/container/set.Set[T]).Contains", func(x *ssa.Call) bool {
-			ds, ok := Roots(x.Call.Args[0])[0].(*ssa.Call)
-			return ok && CalleeName(ds) == c09nDigestSet && graphLoads[ds.Call.Args[0]]
-		})
-		if !c.Check(R4, okKey, rm.Pos(), c09Guarded(at, notIn), ifelse(c09Guarded(at, notIn),
-			"the blob is removed only on the !reachable.Contains(digest) edge, reachable = s.graph.DigestSet()",
-			"a blob file is removed without the test that its digest is absent from s.graph.DigestSet(): reachable content can be deleted")) {
-			continue
+		var out []*ssa.Call
+		for _, o := range os {
+			rs := Roots(o)
+			if len(rs) != 1 {
+				return nil, false
+			}
+			ds, isCall := rs[0].(*ssa.Call)
+			if !isCall || CalleeName(ds) != c09nDigestSet || !c08StoreFieldLoads(ds.Parent(), h.store, "graph")[ds.Call.Args[0]] {
+				return nil, false
+			}
+			out = append(out, ds)
 		}
-		for _, x := range cs {
-			ds := Roots(x.Call.Args[0])[0].(*ssa.Call)
-			ok := len(gcCalls) > 0 && MustPass(ds, newCut().Calls(gcCalls)) && MustPass(ds, newCut().Edges(gcOK...))
-			c.Check(R4, gn+"|reachable-set-after-gcIndex"+sfx, ds.Pos(), ok, ifelse(ok, "DigestSet() is taken after the index was rebuilt successfully", "the reachable set is computed before (or without) a successful rebuild of the index: the sweep uses stale reachability"))
-			d := x.Call.Args[1]
-			// valid digest name
-			var valid []Edge
-			for _, vc := range CallsTo(gc, "(digest.Digest).Validate") {
-				if c09SameKey(vc.Common().Args[0], d) {
-					ne, _, _ := NilTests(gc, Aliases(vc.Value()))
-					valid = append(valid, ne...)
+		return out, true
+	}
+	containsTests := func(fn *ssa.Function) (notIn []Edge, calls []*ssa.Call) {
+		_, notIn, calls = CallTests(fn, "(~/internal/container/set.Set[T]).Contains", func(x *ssa.Call) bool { _, ok := reachSet(x.Call.Args[0]); return ok })
+		return
+	}
+	rebuilt := func(fn *ssa.Function, _ c09Vals) []Edge {
+		var out []Edge
+		for _, g := range CallsTo(fn, fnFullName(h.gcIndex)) {
+			if e := ErrOf(g); e != nil {
+				ne, _, _ := NilTests(fn, Aliases(e))
+				out = append(out, ne...)
+			}
+		}
+		return out
+	}
+	n := 0
+	for _, host := range h.sweepHosts {
+		for _, rm := range Calls(host, func(n string) bool { return n == "os.Remove" || n == "os.RemoveAll" || n == "(*os.Root).Remove" }) {
+			n++
+			sfx := ""
+			if n > 1 {
+				sfx = fmt.Sprintf("#%d", n)
+			}
+			// T: the function that tests reachability — the host, or its (single-level) caller
+			T, atT := host, rm.(ssa.Instruction)
+			pathVals := []ssa.Value{rm.Common().Args[0]}
+			if ne, _ := containsTests(host); len(ne) == 0 {
+				if sites, closed := c09CallSites(c.P, host); closed && len(sites) == 1 {
+					T, atT = sites[0].Parent(), sites[0].(ssa.Instruction)
+					pathVals = sites[0].Common().Args
 				}
 			}
-			ok = c09Guarded(at, valid)
-			c.Check(R4, gn+"|remove-only-valid-digest-names"+sfx, rm.Pos(), ok, ifelse(ok, "entries whose name is not a valid digest are skipped", "a directory entry whose name is not a valid digest can be removed"))
-			// d = NewDigestFromEncoded(alg, name): name flows into the removed path, alg is a known algorithm
-			var mk *ssa.Call
-			for _, r := range Roots(d) {
-				if call, ok := r.(*ssa.Call); ok && CalleeName(call) == "digest.NewDigestFromEncoded" {
-					mk = call
-				}
-			}
-			if mk == nil {
-				c.Undecided(R4, gn+"|removed-file-is-the-tested-digest"+sfx, rm.Pos(), "the tested digest is not built with digest.NewDigestFromEncoded(alg, name)")
+			notIn, cs := containsTests(T)
+			okG := c09Guarded(atT, notIn)
+			if !c.Check(R4, gn+"|remove-only-unreachable"+sfx, rm.Pos(), okG, ifelse(okG,
+				"the blob is removed only on the !reachable.Contains(digest) edge, reachable = s.graph.DigestSet()",
+				"a blob file is removed without the test that its digest is absent from s.graph.DigestSet(): reachable content can be deleted")) {
 				continue
 			}
-			alg, name := strip(mk.Call.Args[0]), mk.Call.Args[1]
-			ok = c09Uses(rm.Common().Args[0], name, 0) && c09Uses(rm.Common().Args[0], alg, 0)
-			c.Check(R4, gn+"|removed-file-is-the-tested-digest"+sfx, rm.Pos(), ok, ifelse(ok, "the removed path is built from the algorithm directory and entry name whose digest was tested", "the removed path is not derived from the entry whose digest was tested"))
-			var known []Edge
-			for _, i := range Ifs(gc) {
-				cond, t, _ := ifEdges(i)
-				call, isCall := cond.(*ssa.Call)
-				if !isCall || len(call.Call.Args) != 1 || !c09SameKey(call.Call.Args[0], alg) {
+			for _, x := range cs {
+				dss, _ := reachSet(x.Call.Args[0])
+				ok := len(dss) > 0
+				var dsPos = x.Pos()
+				for _, ds := range dss {
+					dsPos = ds.Pos()
+					if !c09GuardedUp(c.P, ds, nil, rebuilt, 2) {
+						ok = false
+					}
+				}
+				c.Check(R4, gn+"|reachable-set-after-gcIndex"+sfx, dsPos, ok, ifelse(ok, "DigestSet() is taken after the index was rebuilt successfully", "the reachable set is computed before (or without) a successful rebuild of the index: the sweep uses stale reachability"))
+				d := x.Call.Args[1]
+				// valid digest name
+				var valid []Edge
+				for _, vc := range CallsTo(T, "(digest.Digest).Validate") {
+					if c09SameKey(vc.Common().Args[0], d) {
+						ne, _, _ := NilTests(T, Aliases(vc.Value()))
+						valid = append(valid, ne...)
+					}
+				}
+				ok = c09Guarded(atT, valid)
+				c.Check(R4, gn+"|remove-only-valid-digest-names"+sfx, rm.Pos(), ok, ifelse(ok, "entries whose name is not a valid digest are skipped", "a directory entry whose name is not a valid digest can be removed"))
+				// d = NewDigestFromEncoded(alg, name): name flows into the removed path, alg is a known algorithm
+				var mk *ssa.Call
+				for _, r := range Roots(d) {
+					if call, ok := r.(*ssa.Call); ok && CalleeName(call) == "digest.NewDigestFromEncoded" {
+						mk = call
+					}
+				}
+				if mk == nil {
+					c.Undecided(R4, gn+"|removed-file-is-the-tested-digest"+sfx, rm.Pos(), "the tested digest is not built with digest.NewDigestFromEncoded(alg, name)")
 					continue
 				}
-				if g := StaticCallee(call); g != nil && inModule(g) && len(StringConstsComparedWith(g, func(ssa.Value) bool { return true })) > 0 {
-					known = append(known, t)
+				alg, name := strip(mk.Call.Args[0]), mk.Call.Args[1]
+				usesName, usesAlg := false, false
+				for _, pv := range pathVals {
+					usesName = usesName || c09Uses(pv, name, 0)
+					usesAlg = usesAlg || c09Uses(pv, alg, 0)
 				}
+				ok = usesName && usesAlg
+				c.Check(R4, gn+"|removed-file-is-the-tested-digest"+sfx, rm.Pos(), ok, ifelse(ok, "the removed path is built from the algorithm directory and entry name whose digest was tested", "the removed path is not derived from the entry whose digest was tested"))
+				ok = c09GuardedUp(c.P, atT, c09Vals{"alg": alg}, func(fn *ssa.Function, v c09Vals) []Edge {
+					if v["alg"] == nil {
+						return nil
+					}
+					var known []Edge
+					for _, i := range Ifs(fn) {
+						cond, t, _ := ifEdges(i)
+						call, isCall := cond.(*ssa.Call)
+						if !isCall || len(call.Call.Args) != 1 || !c09ValEq(strip(call.Call.Args[0]), v["alg"]) {
+							continue
+						}
+						if g := StaticCallee(call); g != nil && inModule(g) && len(StringConstsComparedWith(g, func(ssa.Value) bool { return true })) > 0 {
+							known = append(known, t)
+						}
+					}
+					return known
+				}, 2)
+				c.Check(R4, gn+"|remove-only-in-known-algorithm-dirs"+sfx, rm.Pos(), ok, ifelse(ok, "directories that are not a supported digest algorithm are skipped", "files below a directory that is not a supported algorithm can be removed"))
 			}
-			ok = c09Guarded(at, known)
-			c.Check(R4, gn+"|remove-only-in-known-algorithm-dirs"+sfx, rm.Pos(), ok, ifelse(ok, "directories that are not a supported digest algorithm are skipped", "files below a directory that is not a supported algorithm can be removed"))
 		}
 	}
 	c09R4GcIndex(c, R4, h)
@@ -1066,10 +1110,7 @@ func c09R4GcIndex(c *Ctx, R4 string, h *c09Helpers) {
 			if !ok || (bo.Op != token.EQL && bo.Op != token.NEQ) {
 				continue
 			}
-			isDg := func(x ssa.Value) bool {
-				call, ok := x.(*ssa.Call)
-				return ok && CalleeName(call) == "(digest.Digest).String" && obj.fieldOf(call.Call.Args[0], "Digest")
-			}
+			isDg := func(x ssa.Value) bool { return c09DigestString(obj, x) || c09DigestString(obj, strip(x)) }
 			if (c09SameKey(bo.X, k) && isDg(bo.Y)) || (c09SameKey(bo.Y, k) && isDg(bo.X)) {
 				if bo.Op == token.NEQ {
 					neq = append(neq, t)
@@ -1078,24 +1119,41 @@ func c09R4GcIndex(c *Ctx, R4 string, h *c09Helpers) {
 				}
 			}
 		}
-		// is this pass 1?  it tags by the range key
-		var tagRef, tagDg, idx []ssa.Instruction
-		for _, tc := range CallsTo(f, c09nTag) {
-			if !l.Contains(tc.(ssa.Instruction)) || !c09SameKey(tc.Common().Args[0], newRes) {
-				continue
+		// the effects of this pass, performed directly or by an extracted helper
+		inObj := func(v ssa.Value) bool { return v != nil && (obj.vals[v] || obj.vals[strip(v)]) }
+		digestStringOfObj := func(x ssa.Value, bind c09Bind) bool {
+			call, ok := strip(x).(*ssa.Call)
+			var dg ssa.Value
+			if ok && CalleeName(call) == "(digest.Digest).String" {
+				dg = call.Call.Args[0]
+			} else if cv, isCv := x.(*ssa.Convert); isCv {
+				dg = cv.X
+			} else if ct, isCt := x.(*ssa.ChangeType); isCt {
+				dg = ct.X
 			}
-			ref := tc.Common().Args[3]
-			if c09SameKey(ref, k) {
-				tagRef = append(tagRef, tc.(ssa.Instruction))
-			} else if call, ok := ref.(*ssa.Call); ok && CalleeName(call) == "(digest.Digest).String" && obj.fieldOf(call.Call.Args[0], "Digest") {
-				tagDg = append(tagDg, tc.(ssa.Instruction))
-			}
+			return dg != nil && inObj(bind(c09FieldBase(dg, "Digest")))
 		}
-		for _, ic := range CallsTo(f, c09nIndexAll) {
-			if l.Contains(ic.(ssa.Instruction)) && c09SameKey(ic.Common().Args[0], newGraph) {
-				idx = append(idx, ic.(ssa.Instruction))
+		inLoop := func(ins []ssa.Instruction) []ssa.Instruction {
+			var out []ssa.Instruction
+			for _, in := range ins {
+				if l.Contains(in) {
+					out = append(out, in)
+				}
 			}
+			return out
 		}
+		tagRef := inLoop(c09EffectSites(f, c09Identity, func(call ssa.CallInstruction, bind c09Bind) bool {
+			a := call.Common().Args
+			return CalleeName(call) == c09nTag && len(a) == 4 && bind(a[0]) != nil && c09SameKey(bind(a[0]), newRes) && bind(a[3]) != nil && c09SameKey(bind(a[3]), k) && inObj(bind(a[2]))
+		}, 2))
+		tagDg := inLoop(c09EffectSites(f, c09Identity, func(call ssa.CallInstruction, bind c09Bind) bool {
+			a := call.Common().Args
+			return CalleeName(call) == c09nTag && len(a) == 4 && bind(a[0]) != nil && c09SameKey(bind(a[0]), newRes) && digestStringOfObj(a[3], bind)
+		}, 2))
+		idx := inLoop(c09EffectSites(f, c09Identity, func(call ssa.CallInstruction, bind c09Bind) bool {
+			a := call.Common().Args
+			return CalleeName(call) == c09nIndexAll && len(a) == 4 && bind(a[0]) != nil && c09SameKey(bind(a[0]), newGraph)
+		}, 2))
 		if len(tagRef) > 0 {
 			pass1++
 			if len(neq) == 0 {
@@ -1122,6 +1180,25 @@ func c09R4GcIndex(c *Ctx, R4 string, h *c09Helpers) {
 		// pass 2: digest-only entries are kept only under graph.Exists(subject)
 		if len(tagDg) > 0 {
 			exT, _, _ := CallTests(f, c09nExists, func(x *ssa.Call) bool { return c09SameKey(x.Call.Args[0], newGraph) })
+			// … or a helper that answers true only on newGraph.Exists(...) == true
+			te, _ := c09BoolCallEdges(f, func(call *ssa.Call, g *ssa.Function) (int, bool) {
+				if fnPkgPath(g) != fnPkgPath(f) {
+					return 0, false
+				}
+				for i, a := range call.Call.Args {
+					if i >= len(g.Params) || !c09SameKey(a, newGraph) {
+						continue
+					}
+					inner, _, _ := CallTests(g, c09nExists, func(x *ssa.Call) bool { pf, pi := c09ParamOf(x.Call.Args[0]); return pf == g && pi == i })
+					for idx := 0; idx < g.Signature.Results().Len(); idx++ {
+						if types.Identical(g.Signature.Results().At(idx).Type(), types.Typ[types.Bool]) && len(inner) > 0 && c09TrueImplies(g, idx, inner, nil) {
+							return idx, true
+						}
+					}
+				}
+				return 0, false
+			})
+			exT = append(exT, te...)
 			ok := true
 			for _, t := range append(append([]ssa.Instruction{}, tagDg...), idx...) {
 				if !c09Guarded(t, exT) {
